@@ -441,7 +441,7 @@ func (u *uploader) CompleteMultipartUpload(bucket, object string, id UploadID, i
 	var size int64
 
 	for _, inPart := range input.Parts {
-		if inPart.PartNumber >= mpuPartsLen || mpu.parts[inPart.PartNumber] == nil {
+		if inPart.PartNumber < 0 || inPart.PartNumber >= mpuPartsLen || mpu.parts[inPart.PartNumber] == nil {
 			return "", "", ErrorMessagef(ErrInvalidPart, "unexpected part number %d in complete request", inPart.PartNumber)
 		}
 
